@@ -45,6 +45,8 @@ type Call struct {
 	NCPU    int  `json:"ncpu,omitempty"` // answer of runtime.NumCPU in controlled runs (0 -> Threads or 2)
 	// operation history inside one process (one controlled run): the same call made once before, with its
 	// output discarded (PriorCall) or with every write to its output failing (PriorFailedCall)
+	// ToFile: the command's output writer is an *os.File (as in the CLI) instead of an in-memory buffer
+	ToFile bool `json:"tofile,omitempty"`
 	PriorCall       bool `json:"priorcall,omitempty"`
 	PriorFailedCall bool `json:"priorfailedcall,omitempty"`
 	Wrap    int  `json:"wrap,omitempty"` // 0 -> -1
@@ -287,10 +289,21 @@ func (c *Call) CtlW(prefix []int, wrap func(io.Writer) io.Writer) (*zzvs.Result,
 	r := zzvs.Run(prefix, c.ncpu(), func() {
 		c.prior()
 		var w io.Writer = &buf
+		var f *os.File
+		if c.ToFile {
+			f = scratchOut()
+			w = f
+		}
 		if wrap != nil {
 			w = wrap(w)
 		}
 		err = c.Run(w)
+		if f != nil {
+			b, _ := os.ReadFile(f.Name())
+			buf.Write(b)
+			f.Close()
+			os.Remove(f.Name())
+		}
 		// the output as it is when the command returns (what the unwinding of still-parked goroutines at the
 		// end of the controlled run may add - deferred flushes - would be lost at process exit)
 		s := buf.String()
@@ -316,6 +329,17 @@ func (c *Call) CtlW(prefix []int, wrap func(io.Writer) io.Writer) (*zzvs.Result,
 	return r, o
 }
 
+var scratchSeq int
+
+func scratchOut() *os.File {
+	scratchSeq++
+	f, err := os.Create(filepath.Join(engine.Scratch(), fmt.Sprintf("out%d", scratchSeq)))
+	if err != nil {
+		engine.EngineError("%v", err)
+	}
+	return f
+}
+
 type failingWriter struct{}
 
 func (failingWriter) Write(p []byte) (int, error) { return 0, fmt.Errorf("injected: earlier call's output refused") }
@@ -332,6 +356,10 @@ func (c *Call) prior() {
 
 // Canon runs the canonical schedule.
 func (c *Call) Canon() Obs {
+	// (consecutive canonical runs of one worker process form an operation history: shared package-level
+	// state is deliberately not re-initialised between them, so a result that depends on an earlier call shows)
+	zzvs.KeepState = true
+	defer func() { zzvs.KeepState = false }()
 	_, o := c.Ctl(nil)
 	return o
 }
